@@ -2,8 +2,10 @@
 # Regenerates the cfg files of the C03 specs (ErrContractMC, WorkersFault, WgErrCtl, WgErrTrace).
 # Run inside spec/pipeline.  The cfg files are committed; this script documents how they were made.
 set -e
-K6='{"err", "panicErr", "skip", "eof", "ctx", "excl"}'
-KALL='{"err", "wrapped", "panicErr", "panicStr", "panicOther", "skip", "eof", "abort", "ctx", "excl"}'
+K6='{"err", "panicErr", "skip", "eof", "ctx", "excl", "panicW_EOF", "panicW_SKIP"}'
+# panic(v), v is / wraps a sentinel the worker groups give a meaning of their own (one kind per sentinel)
+PW='"panicW_EOF", "panicW_SKIP", "panicW_CTX", "panicW_X", "panicW_ABORT"'
+KALL='{"err", "wrapped", "panicErr", "panicStr", "panicOther", "skip", "eof", "abort", "ctx", "excl", '"$PW"'}'
 ALLC='{"pp", "pfe", "worker", "map", "gen"}'
 
 # ---- ErrContractMC: the option x kind matrix ------------------------------------------------
@@ -20,7 +22,7 @@ EOF
 }
 ec EC_fixed.cfg TRUE none
 ec EC_asis.cfg FALSE none            # as pinned: ExcludedErrors is never consulted -> Refines violated
-for m in nohandler swap ctxdefault nopanicjoin skipreported; do ec EC_mut_$m.cfg TRUE $m; done
+for m in nohandler swap ctxdefault nopanicjoin skipreported sentinelfirst ctxfirst; do ec EC_mut_$m.cfg TRUE $m; done
 
 # ---- WorkersFault: implementation-shaped worker group with failing user functions -----------
 wf() { # name construct maxn maxk fkinds maxfaults optset abortCancels genChecksCtx resolverSame excludedConsulted mut spec property
@@ -35,6 +37,7 @@ CONSTANTS
   OptSet <- $7
   AbortCancels = $8
   GenChecksCtx = $9
+  GenEofByIs = ${GENEOF:-FALSE}
   ResolverSame = ${10}
   ExcludedConsulted = ${11}
   Mut = "${12}"
@@ -54,6 +57,8 @@ for c in pp map gen; do
 done
 # cancelling alone does not stop GenerateParallel: the generator is called without a context check
 wf MC_wf_gen_asis_noctxcheck.cfg gen 5 2 '{"err"}' 1 OptsAbort TRUE FALSE TRUE TRUE none Spec Settles
+# as committed in 4f757ff: a recovered panic whose value is / wraps io.EOF counts as "the generator is done"
+GENEOF=TRUE wf MC_wf_gen_asis_paniceof.cfg gen 5 2 '{"panicW_EOF"}' 1 OptsAbort TRUE TRUE TRUE TRUE none Spec Settles
 # as pinned: ExcludedErrors never consulted
 wf MC_wf_asis_excl.cfg pp 2 1 '{"excl"}' 1 OptsAll TRUE TRUE TRUE FALSE none Spec Settles
 # seeded mutations (non-vacuity self-tests; model-level counterparts of run/mutants/C03)
@@ -62,6 +67,11 @@ wf MC_wf_mut_swap.cfg         map 3 2 '{"err"}'      1 OptsCore TRUE TRUE TRUE  
 wf MC_wf_mut_nohandler.cfg    gen 2 2 '{"panicStr"}' 1 OptsCore TRUE TRUE TRUE  TRUE nohandler    Spec Settles
 wf MC_wf_mut_ctxdefault.cfg   pp  2 1 '{"ctx"}'      1 OptsAll  TRUE TRUE TRUE  TRUE ctxdefault   Spec Settles
 wf MC_wf_mut_skipreported.cfg map 2 1 '{"skip"}'     1 OptsCore TRUE TRUE TRUE  TRUE skipreported Spec Settles
+# the order of the classification switch: sentinel cases before the panic cases (a panic whose value is / wraps
+# io.EOF, ErrIteratorSkip or a context error is then swallowed, or continued after in abort mode)
+wf MC_wf_mut_sentinelfirst_eof.cfg  pp  2 1 '{"panicW_EOF"}'  1 OptsCore TRUE TRUE TRUE TRUE sentinelfirst Spec Settles
+wf MC_wf_mut_sentinelfirst_skip.cfg map 3 2 '{"panicW_SKIP"}' 1 OptsAbort TRUE TRUE TRUE TRUE sentinelfirst Spec Settles
+wf MC_wf_mut_ctxfirst.cfg           gen 2 2 '{"panicW_CTX"}'  1 OptsCore TRUE TRUE TRUE TRUE ctxfirst      Spec Settles
 wf MC_wf_mut_nopanicjoin.cfg  pp  2 1 '{"panicErr"}' 1 OptsAbort TRUE TRUE TRUE  TRUE nopanicjoin  Spec Settles
 
 # ---- WgErrCtl: controllable schedules ---------------------------------------------------------
@@ -92,9 +102,9 @@ ALL='CONSTRAINT EmitAll'
 ctl Ctl_wg_matrix.cfg "$ALLC" '{3}' '{1}' "$KALL" 1 3 OptsAll '{"default", "custom"}' 2 "$ALL"
 # who is held where: every reachable (fault script, held set), one shortest schedule per terminal edge
 ctl Ctl_wg_edge.cfg '{"pp", "map", "gen"}' '{0, 1, 2, 3, 4}' '{1, 2, 3}' '{"err", "skip", "eof"}' 2 4 OptsCore '{"default"}' 8 "$EDGE"
-ctl Ctl_wg_edge_full.cfg "$ALLC" '{0, 1, 2, 3, 4, 5}' '{1, 2, 3}' '{"err", "panicErr", "skip", "eof", "excl"}' 2 5 OptsCore '{"default"}' 9 "$EDGE"
+ctl Ctl_wg_edge_full.cfg "$ALLC" '{0, 1, 2, 3, 4, 5}' '{1, 2, 3}' '{"err", "panicErr", "skip", "eof", "excl", "panicW_EOF"}' 2 5 OptsCore '{"default"}' 9 "$EDGE"
 # the abort bound: inputs long enough for "k more items" and "the rest of the input" to differ (n >= 2k+1)
-ctl Ctl_wg_abort.cfg "$ALLC" '{5, 6, 7, 8}' '{2, 3}' '{"err", "wrapped", "panicErr", "panicStr", "panicOther"}' 1 3 OptsAbort '{"default", "custom"}' 6 "$EDGE"
+ctl Ctl_wg_abort.cfg "$ALLC" '{5, 6, 7, 8}' '{2, 3}' '{"err", "wrapped", "panicErr", "panicStr", "panicOther", "panicW_SKIP", "panicW_EOF"}' 1 3 OptsAbort '{"default", "custom"}' 6 "$EDGE"
 # random schedules (tlc -simulate)
 ctl Ctl_wg_sim.cfg "$ALLC" '{0, 1, 2, 3, 4, 5, 6, 7, 8}' '{1, 2, 3, 4}' "$KALL" 2 8 OptsAll '{"default", "custom"}' 12 "$ALL"
 
